@@ -240,3 +240,417 @@ pub fn first_line_diff(a: &str, b: &str) -> (String, String) {
         }
     }
 }
+
+// ------------------------------------------------------------------------------------------
+// C07: totality
+
+/// A panic inside full_moon's parser on text that the parser does not accept is a known finding in the
+/// dependency (KF-C07-fullmoon-parser-panic); the same location on valid input is not excused.
+pub fn known_panic(msg: &str) -> Option<&'static str> {
+    if msg.contains("/full_moon-") && msg.contains("/src/ast/pars") {
+        Some("KF-C07-fullmoon-parser-panic")
+    } else {
+        None
+    }
+}
+
+/// work bound: formatter ticks allowed for an input of `len` bytes
+pub fn tick_bound(len: usize) -> u64 {
+    (len as u64 * 5_000).max(1_000_000)
+}
+
+pub fn c07(case: &Case, out: &Outcome, ticks: u64) -> Verdict {
+    let syn = case.cfg.syntax;
+    let input_parses = parses(&case.source, syn);
+    match out {
+        Outcome::Panic(msg) => Verdict::Fail(format!("panic: {msg}")),
+        Outcome::Budget(n) => Verdict::Fail(format!("work bound exceeded: more than {n} formatter ticks for {} input bytes", case.source.len())),
+        Outcome::Ok(_) => {
+            if let Err(e) = &input_parses {
+                if !e.starts_with("parser panicked") {
+                    return Verdict::Fail(format!("success returned for text that does not parse: {}", short(e, 120)));
+                }
+            }
+            if ticks > tick_bound(case.source.len()) {
+                return Verdict::Fail(format!("work bound exceeded: {ticks} formatter ticks for {} input bytes", case.source.len()));
+            }
+            Verdict::Pass { nontrivial: true }
+        }
+        Outcome::ParseError(_) => {
+            if input_parses.is_ok() {
+                Verdict::Fail("parse error returned for text that parses".to_string())
+            } else {
+                Verdict::Pass { nontrivial: true }
+            }
+        }
+        Outcome::VerifyError(e) => {
+            // only possible in verify mode: the formatter reports that its own output is wrong; that is a
+            // returned error, not a totality failure (C01/C02 judge the output itself)
+            if case.verify {
+                Verdict::Pass { nontrivial: true }
+            } else {
+                Verdict::Fail(format!("verification error without verify mode: {e}"))
+            }
+        }
+    }
+}
+
+// ------------------------------------------------------------------------------------------
+// C10: whitespace
+
+pub fn has_ignore_directive(src: &str) -> bool {
+    src.contains("stylua: ignore")
+}
+
+pub fn c10(case: &Case, out: &Outcome) -> Verdict {
+    use crate::cfg::{Endings, Indent};
+    let syn = case.cfg.syntax;
+    if case.range.is_some() {
+        return Verdict::Skip("range given");
+    }
+    if has_ignore_directive(&case.source) {
+        return Verdict::Skip("ignore directive present");
+    }
+    let q = match out {
+        Outcome::Ok(q) => q,
+        Outcome::ParseError(_) => return Verdict::Skip("input does not parse"),
+        _ => return Verdict::Skip("no output"),
+    };
+    let toks = match lex_ok(q, syn) {
+        Ok(t) => t,
+        Err(_) => return Verdict::Skip("output does not lex (C01)"),
+    };
+    let b = q.as_bytes();
+    // mask: bytes inside string literals are content; bytes inside multi-line tokens are not line starts
+    let mut in_string = vec![false; b.len()];
+    let mut in_multiline = vec![false; b.len()];
+    for t in &toks {
+        match t.kind {
+            Kind::Quoted(_) | Kind::LongStr(_) | Kind::Interp => {
+                for i in t.start..t.end {
+                    in_string[i] = true;
+                    in_multiline[i] = true;
+                }
+            }
+            Kind::BlockComment(_) => {
+                for i in t.start..t.end {
+                    in_multiline[i] = true;
+                }
+            }
+            _ => {}
+        }
+    }
+    let windows = case.cfg.line_endings == Endings::Windows;
+    let line_of = |pos: usize| q[..pos].matches('\n').count() + 1;
+    for i in 0..b.len() {
+        if in_string[i] {
+            continue;
+        }
+        if b[i] == b'\n' {
+            let has_cr = i > 0 && b[i - 1] == b'\r' && !in_string[i - 1];
+            if windows && !has_cr {
+                return Verdict::Fail(format!("bare line feed at line {} under Windows line endings", line_of(i)));
+            }
+            if !windows && has_cr {
+                return Verdict::Fail(format!("CRLF at line {} under Unix line endings", line_of(i)));
+            }
+        } else if b[i] == b'\r' {
+            let followed = b.get(i + 1) == Some(&b'\n');
+            if !followed || !windows {
+                return Verdict::Fail(format!("stray carriage return at line {}", line_of(i)));
+            }
+            if i > 0 && b[i - 1] == b'\r' {
+                return Verdict::Fail(format!("doubled carriage return at line {}", line_of(i)));
+            }
+        }
+    }
+    // indentation of every line that starts outside a multi-line token
+    let mut start = 0;
+    while start < b.len() {
+        let end = b[start..].iter().position(|&c| c == b'\n').map(|p| start + p).unwrap_or(b.len());
+        let starts_inside = start > 0 && in_multiline[start] && in_multiline[start - 1] && {
+            // inside only if the same token covers start-1 and start: check that a token spans the newline
+            toks.iter().any(|t| t.start < start && t.end > start && matches!(t.kind, Kind::Quoted(_) | Kind::LongStr(_) | Kind::Interp | Kind::BlockComment(_)))
+        };
+        if !starts_inside {
+            let mut j = start;
+            while j < end && (b[j] == b' ' || b[j] == b'\t') {
+                j += 1;
+            }
+            let ws = &b[start..j];
+            let blank_line = j == end || (j + 1 == end && b[j] == b'\r');
+            if !blank_line {
+                match case.cfg.indent_type {
+                    Indent::Tabs => {
+                        if ws.iter().any(|&c| c != b'\t') {
+                            return Verdict::Fail(format!("indentation of line {} is not made of tabs only: {:?}", line_of(start), String::from_utf8_lossy(ws)));
+                        }
+                    }
+                    Indent::Spaces => {
+                        if ws.iter().any(|&c| c != b' ') {
+                            return Verdict::Fail(format!("indentation of line {} contains a tab under Spaces", line_of(start)));
+                        }
+                        if ws.len() % case.cfg.indent_width != 0 {
+                            return Verdict::Fail(format!("indentation of line {} is {} spaces, not a multiple of {}", line_of(start), ws.len(), case.cfg.indent_width));
+                        }
+                    }
+                }
+            } else if j > start && j == end {
+                // whitespace-only line: leading whitespace rule applies too
+            }
+        }
+        start = end + 1;
+    }
+    // end of file
+    if !q.is_empty() {
+        let ending: &str = if windows { "\r\n" } else { "\n" };
+        if !q.ends_with(ending) {
+            return Verdict::Fail("output does not end with the configured line ending".to_string());
+        }
+        let body = &q[..q.len() - ending.len()];
+        if body.ends_with('\n') || body.ends_with('\r') {
+            // allowed only if the final newline belongs to a string / comment token content
+            let last = body.len() - 1;
+            if !in_multiline[last] {
+                return Verdict::Fail("output ends with more than one line ending".to_string());
+            }
+        }
+    }
+    let src = &case.source;
+    let nontrivial = src.contains("\r") != windows || src.contains("\n ") || src.contains("\n\t") || !src.ends_with('\n') || src.ends_with("\n\n");
+    Verdict::Pass { nontrivial: nontrivial && *q != case.source }
+}
+
+// ------------------------------------------------------------------------------------------
+// C11: options
+
+#[derive(Debug, Clone, PartialEq, Eq)]
+pub struct CallSite {
+    /// 'P' parentheses, 'S' string sugar, 'T' table sugar
+    pub form: char,
+    /// byte offset of `(` when form == 'P'
+    pub paren_at: Option<usize>,
+    /// for 'P' with exactly one argument: "String", "Table", "ParenString", "ParenTable" or ""
+    pub single: &'static str,
+    /// an index or method call follows
+    pub obscure: bool,
+}
+
+fn tok_start(v: &serde_json::Value) -> Option<usize> {
+    v.get("token")?.get("start_position")?.get("bytes")?.as_u64().map(|x| x as usize)
+}
+
+fn strip_parens_json(mut e: &serde_json::Value) -> (&serde_json::Value, bool) {
+    let mut stripped = false;
+    loop {
+        match e.get("Parentheses") {
+            Some(p) if p.get("contained").is_some() && p.get("expression").is_some() => {
+                e = &p["expression"];
+                stripped = true;
+            }
+            _ => return (e, stripped),
+        }
+    }
+}
+
+fn args_site(a: &serde_json::Value, obscure: bool) -> Option<CallSite> {
+    if let Some(p) = a.get("Parentheses") {
+        if let Some(arguments) = p.get("arguments") {
+            let paren_at = p.get("parentheses").and_then(|c| c.get("tokens")).and_then(|t| t.get(0)).and_then(tok_start);
+            let pairs = arguments.get("pairs").and_then(|x| x.as_array()).cloned().unwrap_or_default();
+            let mut single = "";
+            if pairs.len() == 1 {
+                let e = if let Some(e) = pairs[0].get("End") { e } else { &pairs[0]["Punctuated"][0] };
+                let (core, stripped) = strip_parens_json(e);
+                single = match (core.get("String").is_some(), core.get("TableConstructor").is_some(), stripped) {
+                    (true, _, false) => "String",
+                    (_, true, false) => "Table",
+                    (true, _, true) => "ParenString",
+                    (_, true, true) => "ParenTable",
+                    _ => "",
+                };
+            }
+            return Some(CallSite { form: 'P', paren_at, single, obscure });
+        }
+    }
+    if a.get("String").is_some() {
+        return Some(CallSite { form: 'S', paren_at: None, single: "", obscure });
+    }
+    if a.get("TableConstructor").is_some() {
+        return Some(CallSite { form: 'T', paren_at: None, single: "", obscure });
+    }
+    None
+}
+
+/// all call sites in source order of the tree walk, and the `(` offsets of function definitions
+pub fn call_sites(ast: &serde_json::Value, calls: &mut Vec<CallSite>, defs: &mut Vec<usize>) {
+    match ast {
+        serde_json::Value::Array(a) => {
+            for x in a {
+                call_sites(x, calls, defs);
+            }
+        }
+        serde_json::Value::Object(m) => {
+            if let Some(sfx) = m.get("suffixes").and_then(|s| s.as_array()) {
+                for (i, s) in sfx.iter().enumerate() {
+                    let next = sfx.get(i + 1);
+                    let obscure = next.map_or(false, |n| n.get("Index").is_some() || n.get("Call").map_or(false, |c| c.get("MethodCall").is_some()));
+                    if let Some(c) = s.get("Call") {
+                        let a = if let Some(a) = c.get("AnonymousCall") { Some(a) } else { c.get("MethodCall").and_then(|m| m.get("args")) };
+                        if let Some(site) = a.and_then(|a| args_site(a, obscure)) {
+                            calls.push(site);
+                        }
+                    }
+                }
+            }
+            if let Some(pp) = m.get("parameters_parentheses") {
+                if let Some(p) = pp.get("tokens").and_then(|t| t.get(0)).and_then(tok_start) {
+                    defs.push(p);
+                }
+            }
+            for (_, v) in m {
+                call_sites(v, calls, defs);
+            }
+        }
+        _ => {}
+    }
+}
+
+fn ast_json(src: &str, syn: Syntax) -> Option<serde_json::Value> {
+    match guarded(|| norm::parse(src, syn).ok().map(|a| serde_json::to_value(a.nodes()).ok())) {
+        Ok(Some(Some(v))) => Some(v),
+        _ => None,
+    }
+}
+
+pub fn c11(case: &Case, out: &Outcome) -> Verdict {
+    use crate::cfg::{CallParens, Quotes, SpaceAfter};
+    let syn = case.cfg.syntax;
+    if case.range.is_some() {
+        return Verdict::Skip("range given");
+    }
+    if has_ignore_directive(&case.source) {
+        return Verdict::Skip("ignore directive present");
+    }
+    let q = match out {
+        Outcome::Ok(q) => q,
+        Outcome::ParseError(_) => return Verdict::Skip("input does not parse"),
+        _ => return Verdict::Skip("no output"),
+    };
+    let toks = match lex_ok(q, syn) {
+        Ok(t) => t,
+        Err(_) => return Verdict::Skip("output does not lex (C01)"),
+    };
+    let mut interesting = false;
+    // quotes
+    for t in &toks {
+        if let Kind::Quoted(qc) = t.kind {
+            let body = &q.as_bytes()[t.start + 1..t.end - 1];
+            let s = body.iter().filter(|&&c| c == b'\'').count();
+            let d = body.iter().filter(|&&c| c == b'"').count();
+            let want: u8 = match case.cfg.quote_style {
+                Quotes::ForceDouble => b'"',
+                Quotes::ForceSingle => b'\'',
+                Quotes::AutoPreferDouble => if d > s { b'\'' } else { b'"' },
+                Quotes::AutoPreferSingle => if s > d { b'"' } else { b'\'' },
+            };
+            if s + d > 0 || qc != b'"' {
+                interesting = true;
+            }
+            if qc != want {
+                return Verdict::Fail(format!(
+                    "string {} uses {} under {:?} ({} single and {} double quotes inside)",
+                    short(t.text(q), 40),
+                    qc as char,
+                    case.cfg.quote_style,
+                    s,
+                    d
+                ));
+            }
+        }
+    }
+    // call forms
+    let Some(out_ast) = ast_json(q, syn) else { return Verdict::Skip("output does not parse (C01)") };
+    let mut calls = Vec::new();
+    let mut defs = Vec::new();
+    call_sites(&out_ast, &mut calls, &mut defs);
+    let Some(in_ast) = ast_json(&case.source, syn) else { return Verdict::Skip("input does not parse") };
+    let mut in_calls = Vec::new();
+    let mut in_defs = Vec::new();
+    call_sites(&in_ast, &mut in_calls, &mut in_defs);
+    // known finding D21: a single argument wrapped in redundant parentheses keeps the call parentheses
+    if in_calls.iter().any(|c| c.single == "ParenString" || c.single == "ParenTable") && case.cfg.call_parentheses != CallParens::Always && case.cfg.call_parentheses != CallParens::Input {
+        return Verdict::Skip("KF-C11-parenthesised-single-argument");
+    }
+    let omit_string = matches!(case.cfg.call_parentheses, CallParens::None | CallParens::NoSingleString);
+    let omit_table = matches!(case.cfg.call_parentheses, CallParens::None | CallParens::NoSingleTable);
+    for c in &calls {
+        if c.form != 'P' {
+            interesting = true;
+        }
+        match case.cfg.call_parentheses {
+            CallParens::Always => {
+                if c.form != 'P' {
+                    return Verdict::Fail(format!("call without parentheses (form {}) under call_parentheses=Always", c.form));
+                }
+            }
+            CallParens::Input => {}
+            _ => {
+                if c.form == 'P' && !c.obscure && ((c.single == "String" && omit_string) || (c.single == "Table" && omit_table)) {
+                    return Verdict::Fail(format!("single {} argument keeps its call parentheses under {:?}", c.single, case.cfg.call_parentheses));
+                }
+            }
+        }
+    }
+    if case.cfg.call_parentheses == CallParens::Input {
+        let a: String = in_calls.iter().map(|c| c.form).collect();
+        let b: String = calls.iter().map(|c| c.form).collect();
+        if a != b {
+            return Verdict::Fail(format!("call forms changed under call_parentheses=Input: {} -> {}", short(&a, 60), short(&b, 60)));
+        }
+    }
+    if in_calls.iter().any(|c| c.form != 'P' || !c.single.is_empty()) {
+        interesting = true;
+    }
+    // spaces
+    let code: Vec<&Tok> = toks.iter().filter(|t| !t.kind.is_trivia()).collect();
+    let check_space = |at: usize, want: bool, what: &str| -> Option<String> {
+        let idx = code.iter().position(|t| t.start == at)?;
+        if idx == 0 {
+            return None;
+        }
+        let prev = code[idx - 1];
+        let gap = &q[prev.end..at];
+        if gap.contains('\n') || gap.contains("--") {
+            return None;
+        }
+        // a generic parameter list sits between the name and `(`
+        if prev.text(q) == ">" {
+            return None;
+        }
+        let ok = if want { gap == " " } else { gap.is_empty() };
+        if ok {
+            None
+        } else {
+            Some(format!("{what}: {:?} between `{}` and `(` under space_after_function_names={:?}", gap, short(prev.text(q), 20), case.cfg.space_after))
+        }
+    };
+    let want_call = matches!(case.cfg.space_after, SpaceAfter::Calls | SpaceAfter::Always);
+    let want_def = matches!(case.cfg.space_after, SpaceAfter::Definitions | SpaceAfter::Always);
+    for c in &calls {
+        if let Some(at) = c.paren_at {
+            if let Some(e) = check_space(at, want_call, "call") {
+                return Verdict::Fail(e);
+            }
+        }
+    }
+    for d in &defs {
+        if let Some(e) = check_space(*d, want_def, "definition") {
+            return Verdict::Fail(e);
+        }
+    }
+    if !calls.is_empty() || !defs.is_empty() {
+        interesting = interesting || case.cfg.space_after != SpaceAfter::Never;
+    }
+    Verdict::Pass { nontrivial: interesting && *q != case.source }
+}
